@@ -78,7 +78,7 @@ def main():
         sh("git -C %s apply %s" % (WT, patch))
         env = dict(os.environ, VERIF_REPO=WT, VERIF_OUT=OUT)
         caught, ran = None, []
-        for tier in ("quick", "thorough"):
+        for tier in (("quick",) if os.environ.get("SEED_QUICK_ONLY") else ("quick", "thorough")):
             r = subprocess.run([os.path.join(VERIF, "check"), prop, "--tier", tier], env=env,
                                stdout=subprocess.PIPE, stderr=subprocess.STDOUT, text=True,
                                cwd=VERIF)
